@@ -288,6 +288,20 @@ def _index(ctx, p, rng):
                     rejected = True
                 if rejected and not _eq(x.data, before):
                     ctx.violation('setitem:rejected-constant-changed-the-container:%s' % icls, {'index': _fmt(idx), 'shape': shape, 'D': D, 'P': P}); continue
+                # a polynomial with more entries than the target (NumPy: "could not broadcast input array") must not be accepted by
+                # broadcasting the TARGET, which writes several values into one slot
+                if int(np.prod(tshape)) == 0:
+                    continue          # (nothing can be written into an empty target)
+                big = UTPM(_vals(rng, (D, P) + tuple(tshape) + (tshape[-1] + 2,), 'real'))
+                try:
+                    x[idx] = big
+                    accepted = True
+                except Exception:
+                    accepted = False
+                if accepted or not _eq(x.data, before):
+                    ctx.violation('setitem:oversized-polynomial-%s:%s' % ('accepted' if accepted else 'rejected-but-container-changed', icls),
+                                  {'index': _fmt(idx), 'shape': shape, 'target_shape': list(tshape), 'rhs_shape': list(big.shape), 'D': D, 'P': P}); continue
+                ctx.ok('setitem:oversized', ('set', 'oversized', shape, _fmt(idx), D, P))
                 continue
             if rk == 'utpm':
                 w = _vals(rng, (D, P) + tshape, vk); rhs = UTPM(w.copy())
@@ -453,7 +467,8 @@ def _reductions(ctx, p, rng):
     for shape in [(4,), (2, 3), (2, 3, 2), (1,), ()]:
         data = _vals(rng, (D, P) + shape, fin)
         x = UTPM(data.copy())
-        for axis in [None] + list(range(-len(shape), len(shape))):
+        tuples = [(0, len(shape) - 1), (-1, 0), (1,), tuple(range(len(shape)))] if len(shape) >= 2 else ([(0,), (-1,)] if len(shape) == 1 else [])
+        for axis in [None] + list(range(-len(shape), len(shape))) + tuples:          # (several axes at once: numpy.sum(a, axis=(0, 2)))
             for ent, f in (('method', (lambda ax: lambda: x.sum(axis=ax) if ax is not None else x.sum())(axis)),
                            ('global', (lambda ax: lambda: algopy.sum(x, axis=ax))(axis))):
                 ok, y = _try(ctx, 'sum', f)
@@ -470,7 +485,7 @@ def _reductions(ctx, p, rng):
                             if np.shape(got) != np.shape(ref) or not np.all(np.abs(got - ref) <= 1e-13 * (np.sum(np.abs(data[d, pp]), axis=axis) + 1e-300)):
                                 bad = 'slice d=%d p=%d shape %s vs %s' % (d, pp, np.shape(got), np.shape(ref))
                 if bad:
-                    ctx.violation('sum:value:%s' % ('axis-none' if axis is None else ('axis-neg' if axis < 0 else 'axis-pos')), {'shape': shape, 'axis': axis, 'why': bad}); continue
+                    ctx.violation('sum:value:%s' % ('axis-none' if axis is None else ('axis-tuple' if isinstance(axis, tuple) else ('axis-neg' if axis < 0 else 'axis-pos'))), {'shape': shape, 'axis': axis, 'why': bad}); continue
                 ctx.ok('sum', ('sum', shape, axis, ent, D, P, vk))
     for shape in [(3, 3), (2, 4), (1, 1), (4, 2), (3, 1), (1, 3), (5, 2)]:
         data = _vals(rng, (D, P) + shape, fin)
